@@ -136,6 +136,7 @@ func plans() []plan {
 	add("context", 800, 50000)
 	add("outercancel", 1000, 60000)
 	add("stress", 160, 8000)
+	add("outer-bigtree", 36, 1200)
 	return ps
 }
 
@@ -143,7 +144,7 @@ func TestCheck(t *testing.T) {
 	rec = mon.Open("C13")
 	defer rec.Close()
 	rec.Note("rule", "a case is one history of 2-8 goroutines x 1-3 keys driven in lock-step against one lock primitive (fifo.Mutex, fifo.Map, cmap.Mutex, lock.Context, lock.OuterCancel), with seeded parking of a caller at the verif hook points between the map look-up and the mutex operation; cmap additionally runs the two directed delete-and-release histories. An occupancy monitor shadows every critical section; FIFO grants are compared with arrival order; fifo.Map's entry count is read at idle points; cancellation and OuterCancel rules are judged from the recorded grants, cancellations and causes in virtual time. Non-trivial = at least one acquisition had to wait; distinct = distinct step list.")
-	rec.Note("require", []string{"fifo.order_checked", "fifomap.idle_len_checked", "fifomap.park.map.lock.counted", "fifomap.park.map.unlock.counted", "cmap.park.lock.lookedup", "cmap.park.rlock.lookedup", "cmap.delete_unlock_safe", "cmap.directed.waiter_confirmed", "context.cancelled_while_waiting", "context.error_holds_nothing", "outer.writer_cancelled_readers_at_grace", "outer.reader_released_before_grace", "outer.reader_blocked_by_writer", "outer.rlock_error_holds_nothing_checked", "outer.free_lock_granted_at_once", "outer.grace_kept_for_holder_whose_parent_ended", "keys.zero_value_key_used", "outer.release_after_shutdown_returned", "outer.writers_exclusive_after_shutdown", "waits", "stress.acquisitions"})
+	rec.Note("require", []string{"fifo.order_checked", "fifomap.idle_len_checked", "fifomap.park.map.lock.counted", "fifomap.park.map.unlock.counted", "cmap.park.lock.lookedup", "cmap.park.rlock.lookedup", "cmap.delete_unlock_safe", "cmap.directed.waiter_confirmed", "context.cancelled_while_waiting", "context.error_holds_nothing", "outer.writer_cancelled_readers_at_grace", "outer.reader_released_before_grace", "outer.reader_blocked_by_writer", "outer.rlock_error_holds_nothing_checked", "outer.free_lock_granted_at_once", "outer.grace_kept_for_holder_whose_parent_ended", "keys.zero_value_key_used", "outer.release_after_shutdown_returned", "outer.writers_exclusive_after_shutdown", "waits", "stress.acquisitions", "outer.bigtree.writer_granted_with_every_derived_context_cancelled"})
 	ps := plans()
 	rec.Planned(len(ps))
 	for idx, pl := range ps {
@@ -175,6 +176,8 @@ func TestCheck(t *testing.T) {
 			res = mon.Bubble(t, func() { nontrivial = outerCancel(w, rng) })
 		case "stress":
 			res = mon.Bubble(t, func() { nontrivial = stress(w, rng) })
+		case "outer-bigtree":
+			res = mon.Bubble(t, func() { nontrivial = outerBigTree(w, rng) })
 		}
 		if w.viol {
 			res.Deadlock = "" // goroutines left behind are the consequence of the reported violation
